@@ -42,6 +42,7 @@ FINDING_LITERAL = "C02-literal-pyeq"
 FINDING_DICTKEY = "C02-dict-key-unchecked"
 FINDING_SETELEM = "C02-set-element-becomes-unhashable"
 FINDING_OPTENUM = "C02-optional-enum-declaration-order"
+FINDING_ENUMRETRY = "C02-enum-unhashable-no-retry"
 
 
 # ---------------------------------------------------------------- enum pool
@@ -61,7 +62,12 @@ class Tiny(Enum):
     a = 1
 
 
-ENUMS = [Color, Mode, Tiny]
+# member names that the loader turns into a list / dict (functional API): only used by the corpus and the
+# witness of FINDING_ENUMRETRY, never drawn by the random generator
+Odd = Enum("Odd", {"[1]": 1, "{}": 2})
+
+ENUMS = [Color, Mode, Tiny, Odd]
+N_RANDOM_ENUMS = 3
 
 
 def enum_desc(i):
@@ -462,6 +468,9 @@ def get_parser(desc):
     return p
 
 
+LAST_GIVEN = [None]
+
+
 def real_parse(desc, channel, inp, keep=False):
     """run the real parser on one case; returns the canonical observation
     {"ok": wire} | {"err": "reject"} | {"err": "crash:<Type>"} (+ the namespace when keep=True)"""
@@ -477,9 +486,12 @@ def real_parse(desc, channel, inp, keep=False):
             pyval = to_py(inp)
         except TypeError:                      # e.g. a list inside a set: not a Python value
             raise Unencodable("not a python value")
+    if channel == "obj":
+        given = copy.deepcopy(pyval)
+        LAST_GIVEN[0] = enc(given, sort_sets=False)      # sets in the iteration order the parser is going to see
     try:
         if channel == "obj":
-            cfg = p.parse_object({"k": copy.deepcopy(pyval)})
+            cfg = p.parse_object({"k": given})
         else:
             cfg = p.parse_args(["--k=" + inp])
         try:
@@ -564,7 +576,7 @@ def gen_leafish(rng, top, hashable):
             ms = rng.sample(LIT_STR, 1) + rng.sample(LIT_INT, 1) + ([rng.choice([True, False])] if n > 2 else [])
             rng.shuffle(ms)
         return {"lit": ms}
-    return enum_desc(rng.randrange(len(ENUMS)))
+    return enum_desc(rng.randrange(N_RANDOM_ENUMS))
 
 
 def gen_ty(rng, depth=4, top=True, hashable=False, in_union=False):
@@ -941,10 +953,16 @@ class Run:
         self.cache = {}
 
     def obs(self, desc, channel, inp):
+        return self.obs_given(desc, channel, inp)[0]
+
+    def obs_given(self, desc, channel, inp):
+        """(observation, the input as the parser saw it: sets in their actual iteration order)"""
         k = jdump([desc, channel, inp])
         r = self.cache.get(k)
         if r is None:
-            r = real_parse(desc, channel, inp)
+            LAST_GIVEN[0] = None
+            o = real_parse(desc, channel, inp)
+            r = (o, LAST_GIVEN[0] if channel == "obj" and LAST_GIVEN[0] is not None else inp)
             self.cache[k] = r
             self.ctx.count()
         return r
@@ -995,6 +1013,9 @@ def check_case_oracles(ctx: Ctx, run: Run, desc, channel, inp, origin, conf_in, 
         elif "none" not in desc["u"]:
             members = [accepted(run.obs(t, "arg", inp)) for t in desc["u"]]
             if accepted(obs) != any(members):
+                if accepted(obs) and any(isinstance(t, dict) and "e" in t and t["e"][0] == 3 for t in desc["u"]) and ctx.is_open(FINDING_ENUMRETRY):
+                    ctx.known(FINDING_ENUMRETRY, "Union accepts the member name %r that the Enum alone rejects" % inp)
+                    return
                 ctx.violation("Union acceptance is not the disjunction of its members' acceptance (argument text)",
                               dict(rep, kind="iff-union", whole=accepted(obs), members=members))
 
@@ -1083,8 +1104,8 @@ def correspond_and_judge(ctx: Ctx, run: Run, cases, variants, label):
     skipped = 0
     for desc, ch, inp, origin in cases:
         try:
-            item = model_item(desc, ch, inp)
-            obs = run.obs(desc, ch, inp)
+            obs, given = run.obs_given(desc, ch, inp)
+            item = model_item(desc, ch, given)
         except Unencodable:
             skipped += 1
             continue
